@@ -89,7 +89,7 @@ fn main() {
             let ctx = Ctx::new(pid, tier, seed, false);
             // C20 has its own per-call watchdog in child processes; every other check gets the stall monitor
             if pid != "C20" {
-                start_stall_monitor(&ctx, std::time::Duration::from_secs(if pid == "C01" { 180 } else { 30 }));
+                start_stall_monitor(&ctx, std::time::Duration::from_secs(if pid == "C01" || pid == "C17" || pid == "C05" { 180 } else { 60 }));
             }
             let r = guard(|| run(&ctx));
             if let Guard::Panic(p) = r {
